@@ -684,7 +684,348 @@ def regenerate_dykstra(ctx=None):
     return [n for n, _ in defs]
 
 
+# ================================================================================================
+# The two sampling loops (C02): loop bodies and preludes as EvalLoop.LoopSt transformers
+# ================================================================================================
+LOOP_FIELDS = {"self.nf": "nf", "nf": "nf", "self.nx": "nx", "nx": "nx", "num_samples_run": "runs", "incremented_nx": "incremented"}
+LOOP_PARAMS = {"self.maxfun": "maxfun", "maxfun": "maxfun", "nf_so_far": "nfSoFar", "nx_so_far": "nxSoFar"}
+
+
+def _nat_expr(e, cur):
+    """Nat expression over loop fields (read from the current state variable `cur`) and parameters"""
+    u = ast.unparse(e)
+    if u in LOOP_FIELDS:
+        return "%s.%s" % (cur, LOOP_FIELDS[u]) if cur else LOOP_FIELDS[u]
+    if u in LOOP_PARAMS:
+        return LOOP_PARAMS[u]
+    if isinstance(e, ast.Constant) and isinstance(e.value, int) and not isinstance(e.value, bool):
+        return str(e.value)
+    if isinstance(e, ast.BinOp) and isinstance(e.op, ast.Add):
+        return "%s + %s" % (_nat_expr(e.left, cur), _nat_expr(e.right, cur))
+    raise Unsupported("integer expression %s" % u)
+
+
+def _is_eval_call(st):
+    return (isinstance(st, ast.Assign) and isinstance(st.value, ast.Call)
+            and ast.unparse(st.value.func) == "eval_least_squares_with_regularisation")
+
+
+def _eval_call_fields(st, consts):
+    kws = {k.arg: k.value for k in st.value.keywords}
+    if "eval_num" not in kws or "pt_num" not in kws:
+        raise Unsupported("evaluation call without eval_num/pt_num")
+    return kws["eval_num"], kws["pt_num"], ast.unparse(st.value.args[1]) if len(st.value.args) > 1 else "?"
+
+
+def _loop_body(stmts, consts):
+    """-> Lean term (LoopSt -> LoopSt x Bool), and the list of point-argument texts of the evaluation calls"""
+    pts = []
+
+    def go(sts, indent):
+        if not sts:
+            return indent + "(s, false)"
+        st, rest = sts[0], sts[1:]
+        if isinstance(st, ast.If) and st.body and isinstance(st.body[-1], ast.Break) and not st.orelse:
+            t = st.test
+            if not (isinstance(t, ast.Compare) and len(t.ops) == 1 and isinstance(t.ops[0], ast.GtE)):
+                raise Unsupported("break guard %s" % ast.unparse(t))
+            a, b = _nat_expr(t.left, "s"), _nat_expr(t.comparators[0], "s")
+            assigns = st.body[:-1]
+            if not (len(assigns) == 1 and isinstance(assigns[0], ast.Assign) and ast.unparse(assigns[0].targets[0]) == "exit_info"
+                    and isinstance(assigns[0].value, ast.Call) and ast.unparse(assigns[0].value.func) == "ExitInformation"
+                    and ast.unparse(assigns[0].value.args[0]) in consts):
+                raise Unsupported("break branch %s" % ast.unparse(st))
+            flag = consts[ast.unparse(assigns[0].value.args[0])]
+            return "%sif %s ≥ %s then\n%s  ({ s with exit := some %s }, true)\n%selse\n%s" % (
+                indent, a, b, indent, flag if flag >= 0 else "(%d)" % flag, indent, go(rest, indent + "  "))
+        if isinstance(st, ast.AugAssign) and isinstance(st.op, ast.Add) and ast.unparse(st.target) in LOOP_FIELDS:
+            f = LOOP_FIELDS[ast.unparse(st.target)]
+            return "%slet s := { s with %s := s.%s + %s }\n%s" % (indent, f, f, _nat_expr(st.value, "s"), go(rest, indent))
+        if isinstance(st, ast.If) and isinstance(st.test, ast.UnaryOp) and isinstance(st.test.op, ast.Not) \
+                and ast.unparse(st.test.operand) in LOOP_FIELDS and not st.orelse:
+            fl = LOOP_FIELDS[ast.unparse(st.test.operand)]
+            ups = []
+            for b in st.body:
+                if isinstance(b, ast.AugAssign) and isinstance(b.op, ast.Add) and ast.unparse(b.target) in LOOP_FIELDS:
+                    f = LOOP_FIELDS[ast.unparse(b.target)]
+                    ups.append("%s := s.%s + %s" % (f, f, _nat_expr(b.value, "s")))
+                elif isinstance(b, ast.Assign) and ast.unparse(b.targets[0]) in LOOP_FIELDS and ast.unparse(b.value) in ("True", "False"):
+                    ups.append("%s := %s" % (LOOP_FIELDS[ast.unparse(b.targets[0])], ast.unparse(b.value).lower()))
+                else:
+                    raise Unsupported("statement under `if not %s`: %s" % (fl, ast.unparse(b)))
+            return "%slet s := if !s.%s then { s with %s } else s\n%s" % (indent, fl, ", ".join(ups), go(rest, indent))
+        if _is_eval_call(st):
+            en, pn, pt = _eval_call_fields(st, consts)
+            pts.append(pt)
+            return "%slet s := { s with calls := s.calls ++ [(%s, %s)] }\n%s" % (indent, _nat_expr(en, "s"), _nat_expr(pn, "s"), go(rest, indent))
+        raise Unsupported("loop statement %s" % ast.unparse(st).split("\n")[0])
+    return go(stmts, "  "), pts
+
+
+def translate_loops():
+    ctl = ast.parse(open(os.path.join(core.REPO, "dfols", "controller.py")).read())
+    sol = ast.parse(open(os.path.join(core.REPO, "dfols", "solver.py")).read())
+    consts = {}
+    for node in ctl.body:
+        if isinstance(node, ast.Assign) and len(node.targets) == 1 and isinstance(node.targets[0], ast.Name) and node.targets[0].id.startswith("EXIT_"):
+            try:
+                consts[node.targets[0].id] = int(ast.literal_eval(node.value))
+            except Exception:
+                pass
+    out, pts_all = [], {}
+
+    def emit(name, fn):
+        try:
+            out.append((name, fn()))
+        except Unsupported as exc:
+            out.append((name, "-- TRANSLATION FAILED for %s: %s\n" % (name, exc)))
+
+    # evaluate_objective
+    eo = find_func(ctl, "evaluate_objective")
+    fors = [s for s in eo.body if isinstance(s, ast.For)]
+
+    def f_eo():
+        if len(fors) != 1 or ast.unparse(fors[0].iter) != "range(number_of_samples)":
+            raise Unsupported("evaluate_objective: loop header")
+        body, pts = _loop_body(fors[0].body, consts)
+        pts_all["evalObj"] = pts
+        return "def evalObjBody (maxfun : Nat) (s : EvalLoop.LoopSt) : EvalLoop.LoopSt × Bool :=\n%s\n" % body
+    emit("evalObjBody", f_eo)
+
+    def f_eo_init():
+        pre = eo.body[:eo.body.index(fors[0])]
+        vals = {"runs": None, "incremented": None, "exit": None}
+        for st in pre:
+            if isinstance(st, ast.Assign) and len(st.targets) == 1:
+                t, v = ast.unparse(st.targets[0]), ast.unparse(st.value)
+                if t == "num_samples_run":
+                    vals["runs"] = _nat_expr(st.value, None)
+                elif t == "incremented_nx" and v in ("True", "False"):
+                    vals["incremented"] = v.lower()
+                elif t == "exit_info" and v == "None":
+                    vals["exit"] = "none"
+                elif t in ("rvec_list", "obj_list"):
+                    continue
+                else:
+                    raise Unsupported("evaluate_objective prelude %s" % ast.unparse(st))
+            elif isinstance(st, ast.Expr) and isinstance(st.value, ast.Constant):
+                continue
+            else:
+                raise Unsupported("evaluate_objective prelude %s" % ast.unparse(st))
+        if None in vals.values():
+            raise Unsupported("evaluate_objective prelude incomplete: %s" % vals)
+        return ("def evalObjInit (nf nx : Nat) : EvalLoop.LoopSt :=\n  { nf := nf, nx := nx, incremented := %s, runs := %s, exit := %s, calls := [] }\n"
+                % (vals["incremented"], vals["runs"], vals["exit"]))
+    emit("evalObjInit", f_eo_init)
+
+    # the block at x0 in solve_main
+    sm = find_func(sol, "solve_main")
+    top = [s for s in sm.body if isinstance(s, ast.If) and ast.unparse(s.test) == "r0_avg_old is None"]
+
+    def x0_parts():
+        if len(top) != 1:
+            raise Unsupported("solve_main: `if r0_avg_old is None` block")
+        blk = top[0].body
+        f = [s for s in blk if isinstance(s, ast.For)]
+        if len(f) != 1 or ast.unparse(f[0].iter) != "range(1, number_of_samples)":
+            raise Unsupported("solve_main: x0 loop header")
+        return blk, f[0]
+
+    def f_x0():
+        blk, f = x0_parts()
+        body, pts = _loop_body(f.body, consts)
+        pts_all["x0"] = pts
+        return "def x0Body (maxfun : Nat) (s : EvalLoop.LoopSt) : EvalLoop.LoopSt × Bool :=\n%s\n" % body
+    emit("x0Body", f_x0)
+
+    def f_x0_init():
+        blk, f = x0_parts()
+        pre = blk[:blk.index(f)]
+        vals = {}
+        calls = []
+        for st in pre:
+            if _is_eval_call(st):
+                en, pn, pt = _eval_call_fields(st, consts)
+                calls.append("(%s, %s)" % (vals.get(LOOP_FIELDS.get(ast.unparse(en), "?"), "?"), vals.get(LOOP_FIELDS.get(ast.unparse(pn), "?"), "?")))
+                pts_all.setdefault("x0", []).append(pt)
+            elif isinstance(st, ast.Assign) and len(st.targets) == 1:
+                t = ast.unparse(st.targets[0])
+                if t in LOOP_FIELDS:
+                    vals[LOOP_FIELDS[t]] = _nat_expr(st.value, None)
+                elif t == "exit_info" and ast.unparse(st.value) == "None":
+                    vals["exit"] = "none"
+                elif t in ("number_of_samples", "m", "rvec_list", "obj_list", "rvec_list[0, :]", "obj_list[0]"):
+                    continue
+                else:
+                    raise Unsupported("x0 prelude %s" % ast.unparse(st))
+            else:
+                raise Unsupported("x0 prelude %s" % ast.unparse(st).split("\n")[0])
+        need = ("nf", "nx", "runs", "exit")
+        if any(k not in vals for k in need) or len(calls) != 1:
+            raise Unsupported("x0 prelude incomplete: %s / %d calls" % (vals, len(calls)))
+        return ("def x0Init (nfSoFar nxSoFar : Nat) : EvalLoop.LoopSt :=\n  { nf := %s, nx := %s, incremented := true, runs := %s, exit := %s, calls := [%s] }\n"
+                % (vals["nf"], vals["nx"], vals["runs"], vals["exit"], calls[0]))
+    emit("x0Init", f_x0_init)
+    out.append(("samplePointArgs", "/-- the point argument of every evaluation call of the two blocks (the same expression on every pass) -/\ndef samplePointArgs : List (String × List String) := [%s]\n"
+                % ", ".join('("%s", [%s])' % (k, ", ".join('"%s"' % p for p in v)) for k, v in sorted(pts_all.items()))))
+    return out
+
+
+def regenerate_loops(ctx=None):
+    path = os.path.join(core.LEAN_DIR, "DfolsVerif", "Gen", "EvalLoopFns.lean")
+    try:
+        defs = translate_loops()
+        failed = [n for n, s in defs if s.startswith("-- TRANSLATION FAILED")]
+        if failed and ctx is not None:
+            ctx.broke("gen:loop-translator", {"untranslatable": failed, "detail": [s for n, s in defs if n in failed]})
+    except Exception as exc:
+        if ctx is not None:
+            ctx.broke("gen:loop-translator", repr(exc))
+        defs = [("failed", "-- TRANSLATION FAILED: %r\n" % (exc,))]
+    content = "\n".join(["/- GENERATED by harness/gen_kernels.py from /repo's controller.py / solver.py on every run — do not edit.",
+                         "   The two sampling loops that spend the evaluation budget, as transformers of EvalLoop.LoopSt. -/",
+                         "import DfolsVerif.Kernels.EvalLoop", "namespace Dfols.Gen", ""] + [s for _, s in defs] + ["end Dfols.Gen", ""])
+    old = open(path).read() if os.path.exists(path) else None
+    if old != content:
+        open(path, "w").write(content)
+    return [n for n, _ in defs]
+
+
+# ================================================================================================
+# Restart guards (C02, C10): integer / boolean decisions as Lean functions over Int and Bool
+# ================================================================================================
+GUARD_INTS = {"nruns_so_far": "nrunsSoFar", "self.last_successful_run": "lastSuccessfulRun", "self.nf": "nf", "self.maxfun": "maxfun",
+              "nf": "nf", "maxfun": "maxfun", "nruns": "nruns", "last_successful_run": "lastSuccessfulRun",
+              "params('restarts.max_unsuccessful_restarts')": "maxUnsucc"}
+GUARD_BOOLS = {"params('restarts.use_restarts')": "useRestarts", "params('restarts.use_soft_restarts')": "useSoft",
+               "exit_info.able_to_do_restart()": "able", "ok_to_do_restart": "okToDoRestart"}
+
+
+def _gint(e):
+    u = ast.unparse(e)
+    if u in GUARD_INTS:
+        return GUARD_INTS[u]
+    if isinstance(e, ast.BinOp) and isinstance(e.op, ast.Sub):
+        return "(%s - %s)" % (_gint(e.left), _gint(e.right))
+    if isinstance(e, ast.BinOp) and isinstance(e.op, ast.Add):
+        return "(%s + %s)" % (_gint(e.left), _gint(e.right))
+    if isinstance(e, ast.Constant) and isinstance(e.value, int) and not isinstance(e.value, bool):
+        return "%d" % e.value
+    raise Unsupported("integer expression %s" % u)
+
+
+def _gbool(e):
+    u = ast.unparse(e)
+    if u in GUARD_BOOLS:
+        return GUARD_BOOLS[u]
+    if isinstance(e, ast.BoolOp):
+        op = " && " if isinstance(e.op, ast.And) else " || "
+        return "(" + op.join(_gbool(v) for v in e.values) + ")"
+    if isinstance(e, ast.UnaryOp) and isinstance(e.op, ast.Not):
+        return "!" + _gbool(e.operand)
+    if isinstance(e, ast.Compare) and len(e.ops) == 1:
+        a, b = _gint(e.left), _gint(e.comparators[0])
+        o = e.ops[0]
+        if isinstance(o, ast.Lt):
+            return "decide (%s < %s)" % (a, b)
+        if isinstance(o, ast.LtE):
+            return "decide (%s ≤ %s)" % (a, b)
+        if isinstance(o, ast.Gt):
+            return "decide (%s < %s)" % (b, a)
+        if isinstance(o, ast.GtE):
+            return "decide (%s ≤ %s)" % (b, a)
+    raise Unsupported("boolean expression %s" % u)
+
+
+def translate_guards():
+    ctl = ast.parse(open(os.path.join(core.REPO, "dfols", "controller.py")).read())
+    sol = ast.parse(open(os.path.join(core.REPO, "dfols", "solver.py")).read())
+    consts = {}
+    for node in ctl.body:
+        if isinstance(node, ast.Assign) and len(node.targets) == 1 and isinstance(node.targets[0], ast.Name) and node.targets[0].id.startswith("EXIT_"):
+            try:
+                consts[node.targets[0].id] = int(ast.literal_eval(node.value))
+            except Exception:
+                pass
+    out = []
+
+    def emit(name, fn):
+        try:
+            out.append((name, fn()))
+        except Unsupported as exc:
+            out.append((name, "-- TRANSLATION FAILED for %s: %s\n" % (name, exc)))
+
+    def exit_of(call):
+        if not (isinstance(call, ast.Call) and ast.unparse(call.func) == "ExitInformation" and ast.unparse(call.args[0]) in consts
+                and isinstance(call.args[1], ast.Constant)):
+            raise Unsupported("exit construction %s" % ast.unparse(call))
+        c = consts[ast.unparse(call.args[0])]
+        return '(%s, "%s")' % (str(c) if c >= 0 else "(%d)" % c, call.args[1].value)
+
+    # soft_restart: the refusal block
+    def f_soft():
+        fn = find_func(ctl, "soft_restart")
+        idx = [i for i, st in enumerate(fn.body) if isinstance(st, ast.Assign) and ast.unparse(st.targets[0]) == "ok_to_do_restart"]
+        if len(idx) != 1:
+            raise Unsupported("ok_to_do_restart assignment")
+        okdef = _gbool(fn.body[idx[0]].value)
+        blk = fn.body[idx[0] + 1]
+        if not (isinstance(blk, ast.If) and ast.unparse(blk.test) == "not ok_to_do_restart" and not blk.orelse and len(blk.body) == 3
+                and isinstance(blk.body[0], ast.Assign) and ast.unparse(blk.body[0].targets[0]) == "exit_info"
+                and isinstance(blk.body[1], ast.If) and not blk.body[1].orelse and len(blk.body[1].body) == 1
+                and isinstance(blk.body[1].body[0], ast.Assign) and ast.unparse(blk.body[1].body[0].targets[0]) == "exit_info"
+                and isinstance(blk.body[2], ast.Return) and ast.unparse(blk.body[2].value) == "exit_info"):
+            raise Unsupported("soft_restart refusal block has an unexpected shape")
+        # nothing between the function head and the refusal may return or evaluate
+        for st in fn.body[:idx[0]]:
+            for n in ast.walk(st):
+                if isinstance(n, ast.Return) or (isinstance(n, ast.Call) and "evaluate_objective" in ast.unparse(n.func)):
+                    raise Unsupported("soft_restart returns/evaluates before the admission test")
+        e1 = exit_of(blk.body[0].value)
+        c2 = _gbool(blk.body[1].test)
+        e2 = exit_of(blk.body[1].body[0].value)
+        return ("def softRestartRefusal (nrunsSoFar lastSuccessfulRun maxUnsucc nf maxfun : Int) : Option (Int × String) :=\n"
+                "  let okToDoRestart := %s\n  if !okToDoRestart then\n    let exit_info := %s\n    let exit_info := if %s then %s else exit_info\n"
+                "    some exit_info\n  else none\n" % (okdef, e1, c2, e2))
+    emit("softRestartRefusal", f_soft)
+
+    # solve(): the guard of the hard-restart loop
+    def f_hard():
+        fn = find_func(sol, "solve")
+        wh = [st for st in fn.body if isinstance(st, ast.While)]
+        if len(wh) != 1:
+            raise Unsupported("%d while loops in solve()" % len(wh))
+        return ("def hardRestartGuard (useRestarts useSoft able : Bool) (nf maxfun nruns lastSuccessfulRun maxUnsucc : Int) : Bool :=\n  %s\n"
+                % _gbool(wh[0].test))
+    emit("hardRestartGuard", f_hard)
+    return out
+
+
+def regenerate_guards(ctx=None):
+    path = os.path.join(core.LEAN_DIR, "DfolsVerif", "Gen", "RestartGuards.lean")
+    try:
+        defs = translate_guards()
+        failed = [n for n, s in defs if s.startswith("-- TRANSLATION FAILED")]
+        if failed and ctx is not None:
+            ctx.broke("gen:restart-guards-translator", {"untranslatable": failed, "detail": [s for n, s in defs if n in failed]})
+    except Exception as exc:
+        if ctx is not None:
+            ctx.broke("gen:restart-guards-translator", repr(exc))
+        defs = [("failed", "-- TRANSLATION FAILED: %r\n" % (exc,))]
+    content = "\n".join(["/- GENERATED by harness/gen_kernels.py from /repo's controller.py / solver.py on every run — do not edit.",
+                         "   The admission test of soft restarts and the guard of the hard-restart loop, over Python ints (Int) and bools. -/",
+                         "namespace Dfols.Gen", ""] + [s for _, s in defs] + ["end Dfols.Gen", ""])
+    old = open(path).read() if os.path.exists(path) else None
+    if old != content:
+        open(path, "w").write(content)
+    return [n for n, _ in defs]
+
+
 if __name__ == "__main__":
+    regenerate_guards()
+    print(open(os.path.join(core.LEAN_DIR, "DfolsVerif", "Gen", "RestartGuards.lean")).read())
+    regenerate_loops()
+    print(open(os.path.join(core.LEAN_DIR, "DfolsVerif", "Gen", "EvalLoopFns.lean")).read())
     regenerate_dykstra()
     print(open(os.path.join(core.LEAN_DIR, "DfolsVerif", "Gen", "DykstraFns.lean")).read())
     regenerate_clip()
